@@ -599,7 +599,7 @@ func flexLayout(context *layoutContext, box_ Box, bottomSpace pr.Float, skipStac
 				}
 			} else {
 				child.Height = child.TargetMainSize - child.PaddingTop.V() - child.PaddingBottom.V() -
-					child.BorderTopWidth.V() - child.BorderTopWidth.V()
+					child.BorderTopWidth.V() - child.BorderBottomWidth.V()
 				if child.MarginLeft != pr.AutoF {
 					child.Height = child.Height.V() - child.MarginLeft.V()
 				}
